@@ -297,3 +297,27 @@ fn encoded_len(action: &RollupDataSubmission) -> usize {
     use prost::Message as _;
     action.to_raw().encoded_len()
 }
+
+/// Verification hook (cargo feature `verif`): read-only access to the buffered actions.
+#[cfg(feature = "verif")]
+impl SizedBundle {
+    pub(super) fn verif_actions(&self) -> &[Action] {
+        &self.buffer
+    }
+}
+
+/// Verification hook (cargo feature `verif`): read-only access to the factory's state.
+#[cfg(feature = "verif")]
+impl BundleFactory {
+    pub(super) fn verif_curr_bundle(&self) -> &SizedBundle {
+        &self.curr_bundle
+    }
+
+    pub(super) fn verif_finished(&self) -> impl Iterator<Item = &SizedBundle> {
+        self.finished.iter()
+    }
+
+    pub(super) fn verif_finished_queue_capacity(&self) -> usize {
+        self.finished_queue_capacity
+    }
+}
